@@ -211,7 +211,7 @@ func (b *binding) callGet() (int, []int) {
 	return -1, out
 }
 
-func (b *binding) callSet(v int, vs []int) {
+func (b *binding) callSet(v int, vs []int, overlap bool) {
 	switch {
 	case b.s8 != nil:
 		b.s8(uint8(v))
@@ -229,6 +229,10 @@ func (b *binding) callSet(v int, vs []int) {
 		for i, x := range vs {
 			a.Index(i).SetUint(uint64(x))
 		}
+	} else if overlap {
+		// the argument is a slice of the element's OWN buffer (the first octets, which hold the value): a setter copies with
+		// the semantics of copy(), whatever the overlap
+		a = reflect.ValueOf((*b.buf)[:len(vs)])
 	} else {
 		bs := make([]uint8, len(vs))
 		for i, x := range vs {
@@ -246,12 +250,25 @@ func (b *binding) callSet(v int, vs []int) {
 
 // one case: write prior, get, set, read back, get
 func (b *binding) run(c *Case, p *Elem, v int, vs []int) Ev {
+	overlap := false
+	if b.buf != nil && b.argT.Kind() == reflect.Slice && c.Kind != "len" && len(vs) > 0 && len(p.Oct) >= len(vs) {
+		h := len(p.Oct)
+		for _, x := range vs {
+			h = h*31 + x
+		}
+		if h%3 == 0 { // prior contents whose first octets ARE the value; the value is handed over as that very slice
+			p2 := *p
+			p2.Oct = append([]int{}, p.Oct...)
+			copy(p2.Oct, vs)
+			p, overlap = &p2, true
+		}
+	}
 	e := Ev{Op: "Set", Ti: c.Ti, Fi: c.Fi, Type: c.Type, Field: c.Field, Piei: p.Iei, Plen: p.Len, Poct: p.Oct,
 		V: v, Vs: vs, G0: -1, Gs0: none, G1: -1, Gs1: none, P1: -1, L: len(p.Oct), Sums: none, Sums2: none}
 	b.write(p)
 	pi := ev.Guard(func() {
 		e.G0, e.Gs0 = b.callGet()
-		b.callSet(v, vs)
+		b.callSet(v, vs, overlap)
 	})
 	e.Qiei, e.Qlen, e.Qoct = b.read()
 	if c.Kind == "len" && b.buf != nil {
@@ -510,7 +527,7 @@ func digest(in, out string) {
 					bd.write(&p)
 					var g int
 					pi := ev.Guard(func() {
-						bd.callSet(v, none)
+						bd.callSet(v, none, false)
 						g, _ = bd.callGet()
 					})
 					if pi != nil {
